@@ -207,9 +207,14 @@ func (p *sparser) expr() *SNode {
 		var lo, hi *SNode
 		if p.peek().tok == token.IDENT && p.peek().lit == "in" {
 			p.next()
-			lo = p.binary(3) // above comparison so that ".." terminates it
-			p.expect("..")
-			hi = p.binary(3)
+			if t2 := p.peek(); t2.tok == token.IDENT && (t2.lit == "refs" || t2.lit == "oldrefs") {
+				// forall e in refs(T): e ranges over all references to struct type T
+				lo = p.postfix()
+			} else {
+				lo = p.binary(3) // above comparison so that ".." terminates it
+				p.expect("..")
+				hi = p.binary(3)
+			}
 		}
 		p.expect(":")
 		body := p.expr()
